@@ -629,6 +629,16 @@ def gen_scene(rng, max_leaf=4, clean=None, fault=None):
                 g = ids.leaf()
                 case["foreign"].append({"gid": g, "fid": ids.fid[str(g)]})
                 post["late_edges"].append([rng.choice(terms), rng.choice("abc"), g])
+    if not clean:
+        # the wiring that the partial theorem excludes: a branch of an `If`, the `failed` of a failing node
+        for meta in metas:
+            srcs = [(g, "true" if tr else "false") for g, tr in meta["ifs"].items()]
+            srcs += [(g, "failed") for g in case["fails"] if g in meta["leaves"]]
+            for a, chn in srcs:
+                others = [h for h in meta["hidden"] if h != a]
+                if others and rng.random() < 0.6:
+                    post["signals"].append(["sig", a, chn, rng.choice(others),
+                                            rng.choice(["run", "run", "accumulate_and_run"])])
     case["post"] = post
     case["ngid"] = ids.g
     case["_meta"] = {"clean": clean, "fault": fault, "leaves": all_leaves, "levels": [m["leaves"] for m in metas]}
@@ -850,9 +860,14 @@ def _oracle_rec(case, w, rec, fids):
     # 1. nothing else runs
     outside = [g for g in log if g not in allowed]
     if outside:
-        trig = _trigger(outside[0], _ik(rec["before"]["conns"]), drivers, log, failed_after, ifs)
+        bc0 = _ik(rec["before"]["conns"])
+        trig = _trigger(outside[0], bc0, drivers, log, failed_after, ifs)
+        # the hypotheses of the partial theorem (C11_exact_partial): when they hold nothing is excusable
+        only_ran = all(not bc0.get(6 * i + k) for i in allowed for k in (3, 4, 5))
+        driving = {parent.get(a) for a in levels} - {None}
+        silent = all(p in set(w["wfs"]) or all(not bc0.get(6 * p + k) for k in (2, 3, 4, 5)) for p in driving)
         fail(f"runs-outside-closure/{trig}", f"node {outside[0]} is not upstream of the target but ran; executed {log}, "
-             f"closure {sorted(allowed)}", trigger=trig)
+             f"closure {sorted(allowed)}", trigger=trig, hypotheses_hold=bool(only_ran and silent))
     inside = [g for g in log if g in allowed]
     # 2. each once
     twice = sorted({g for g in inside if inside.count(g) > 1})
